@@ -12,6 +12,7 @@
   reference reader; see DESIGN.md §C18 for what is not yet a theorem.
 -/
 import Proofs.SaveWrite
+import Proofs.SaveHashPath
 namespace Pyctr.C18
 open Pyctr Pyctr.Save
 
@@ -83,5 +84,33 @@ theorem C18_cmac_sav0 (H : Bytes → Bytes) (mac : Bytes → Bytes → Bytes) (c
     (h : c.sav0 = true) (hl : header.length = 0x100) (hm : slice header 0 4 = [0x44, 0x49, 0x53, 0x41]) :
     genCmac H mac c header = .ok (mac c.key (H (c.magic ++ c.pre ++ H (sav0Magic ++ header)))) := by
   unfold genCmac; rw [h]; simp [hl, hm]
+
+/-- **hash path** (on the levels as byte arrays; `absWrite` is `IVFCHashTree.write_data` with every level an array).  After a
+    write of `data` at `offset` of level `idx`: the level is the old level with the data laid over it; the levels below it, all
+    lengths and the number of master hashes are unchanged; and every block of the level that was touched, or whose chain was
+    intact before, has an intact chain up to the updated master hashes.  (`ZeroHash`: SHA-256 of some block is 32 zero bytes —
+    such a block reads as "uninitialised".) -/
+theorem C18_hash_path (H : Bytes → Bytes) (bsOf : Nat → Nat) (hbs : ∀ i, 0 < bsOf i) (hH : ∀ x, (H x).length = 0x20)
+    (hnz : ¬ ZeroHash H) (idx offset : Nat) (data : Bytes) (L : Nat → Bytes) (master : List Bytes) (L' : Nat → Bytes)
+    (master' : List Bytes) (hlen : 0 < data.length) (hin : offset + data.length ≤ (L idx).length)
+    (hgeo : ∀ i, i < idx → nblocks (L (i + 1)).length (bsOf (i + 1)) * 0x20 ≤ (L i).length)
+    (h : absWrite H bsOf idx offset data (L, master) = .ok (L', master')) :
+    (∀ j, idx < j → L' j = L j) ∧ L' idx = overlay (L idx) offset data ∧ (∀ j, (L' j).length = (L j).length) ∧
+      master'.length = master.length ∧
+      ∀ b, b * bsOf idx < (L idx).length → (touched offset data.length (bsOf idx) b ∨ chainOK H bsOf master L idx b) →
+        chainOK H bsOf master' L' idx b :=
+  absWrite_chain H bsOf hbs hH hnz idx offset data L master L' master' hlen hin hgeo h
+
+/-- hence a fully verifying tree stays fully verifying and its verified level-4 view becomes the old view with the data laid
+    over it -/
+theorem C18_view (H : Bytes → Bytes) (bsOf : Nat → Nat) (hbs : ∀ i, 0 < bsOf i) (hH : ∀ x, (H x).length = 0x20)
+    (hnz : ¬ ZeroHash H) (offset : Nat) (data : Bytes) (L : Nat → Bytes) (master : List Bytes) (L' : Nat → Bytes)
+    (master' : List Bytes) (hlen : 0 < data.length) (hin : offset + data.length ≤ (L 3).length)
+    (hgeo : ∀ i, i < 3 → nblocks (L (i + 1)).length (bsOf (i + 1)) * 0x20 ≤ (L i).length)
+    (hall : ∀ b, b * bsOf 3 < (L 3).length → chainOK H bsOf master L 3 b)
+    (h : absWrite H bsOf 3 offset data (L, master) = .ok (L', master')) :
+    (∀ b, b * bsOf 3 < (L' 3).length → chainOK H bsOf master' L' 3 b) ∧
+      verifiedView H L' bsOf master' = overlay (verifiedView H L bsOf master) offset data :=
+  absWrite_view H bsOf hbs hH hnz offset data L master L' master' hlen hin hgeo hall h
 
 end Pyctr.C18
